@@ -1870,8 +1870,11 @@ func (m *machine) execReturn(st *ast.ReturnStmt, env *penv) lnode {
 }
 
 func (m *machine) execSwitch(st *ast.SwitchStmt, env *penv, k kont) lnode {
+	if st.Init == nil && st.Tag != nil && m.isChar(st.Tag) {
+		return m.execStmt(m.charSwitchAsIf(st), env, k)
+	}
 	if st.Init != nil || st.Tag == nil || !isIdent(st.Tag, m.stateVar) {
-		failAt(st, "only `switch %s` is supported", m.stateVar)
+		failAt(st, "only `switch %s` and `switch %s` are supported", m.stateVar, m.charVar)
 	}
 	type arm struct {
 		ctor string
@@ -1941,6 +1944,58 @@ func (m *machine) execSwitch(st *ast.SwitchStmt, env *penv, k kont) lnode {
 		out.arms = append(out.arms, lArm{pat: "." + a.ctor, body: run(a)})
 	}
 	return out
+}
+
+// `switch char { case 'a': A  case 'b', 'c': B  default: C }` is read as the chain
+// `if char == 'a' {A} else if char == 'b' || char == 'c' {B} else {C}` (the Go specification defines the expression
+// switch by exactly these comparisons, in this order; the tag is a variable, so evaluating it once or once per
+// comparison is the same, and no case body runs before the comparisons that select it).  The cases must be
+// character literals; a `break` / `fallthrough` in a case body (which would mean something else in the chain) is
+// refused, as every branch statement other than `continue` is refused by execStmt anyway.
+func (m *machine) charSwitchAsIf(st *ast.SwitchStmt) ast.Stmt {
+	var first, cur *ast.IfStmt
+	var deflt *ast.CaseClause
+	for _, cc := range st.Body.List {
+		c := cc.(*ast.CaseClause)
+		if breaksOut(c.Body) {
+			failAt(c, "break / fallthrough in a case of `switch %s`", m.charVar)
+		}
+		if c.List == nil {
+			if deflt != nil {
+				failAt(c, "two default cases")
+			}
+			deflt = c
+			continue
+		}
+		var cond ast.Expr
+		for _, x := range c.List {
+			if _, ok := charLit(x); !ok {
+				failAt(x, "a case of `switch %s` must be a character literal: %s", m.charVar, src(x))
+			}
+			eq := &ast.BinaryExpr{X: &ast.Ident{NamePos: x.Pos(), Name: m.charVar}, OpPos: x.Pos(), Op: token.EQL, Y: x}
+			if cond == nil {
+				cond = eq
+			} else {
+				cond = &ast.BinaryExpr{X: cond, OpPos: x.Pos(), Op: token.LOR, Y: eq}
+			}
+		}
+		n := &ast.IfStmt{If: c.Pos(), Cond: cond, Body: &ast.BlockStmt{Lbrace: c.Colon, List: c.Body, Rbrace: c.End()}}
+		if first == nil {
+			first = n
+		} else {
+			cur.Else = n
+		}
+		cur = n
+	}
+	var rest ast.Stmt = &ast.BlockStmt{Lbrace: st.Body.Lbrace, Rbrace: st.Body.Rbrace}
+	if deflt != nil {
+		rest = &ast.BlockStmt{Lbrace: deflt.Colon, List: deflt.Body, Rbrace: deflt.End()}
+	}
+	if first == nil {
+		return rest
+	}
+	cur.Else = rest
+	return first
 }
 
 func (m *machine) execAssign(st *ast.AssignStmt, env *penv, k kont) lnode {
@@ -2459,7 +2514,7 @@ func genQuoteJSON(fd *ast.FuncDecl) string {
 	if as, ok := loop.Init.(*ast.AssignStmt); ok && as.Tok == token.DEFINE && len(as.Lhs) == 1 && src(as.Rhs[0]) == "0" {
 		idx = src(as.Lhs[0])
 	}
-	if idx == "" || loop.Cond == nil || loop.Post == nil || src(loop.Cond) != idx+" < len("+str+")" || src(loop.Post) != idx+"++" || len(loop.Body.List) != 2 {
+	if idx == "" || loop.Cond == nil || loop.Post == nil || src(loop.Cond) != idx+" < len("+str+")" || src(loop.Post) != idx+"++" || len(loop.Body.List) < 2 {
 		failAt(loop, "quoteJSON: unrecognised loop")
 	}
 	as, ok := loop.Body.List[0].(*ast.AssignStmt)
@@ -2467,103 +2522,248 @@ func genQuoteJSON(fd *ast.FuncDecl) string {
 		failAt(loop.Body.List[0], "quoteJSON: expected `char := %s[%s]`", str, idx)
 	}
 	char := src(as.Lhs[0])
-	sw, ok := loop.Body.List[1].(*ast.SwitchStmt)
-	if !ok || sw.Tag != nil || sw.Init != nil {
-		failAt(loop.Body.List[1], "quoteJSON: expected a tagless switch")
+	if char == result || char == idx || char == str || tables[char] != "" {
+		failAt(as, "quoteJSON: %s shadows a variable of the function", char)
 	}
-	// the output of one case: a list of character expressions
-	output := func(body []ast.Stmt) string {
-		var elems []string
-		for _, st := range body {
-			es, ok := st.(*ast.ExprStmt)
+	// the output of one write: character expressions appended to what the iteration has written so far
+	write := func(st ast.Stmt, elems []string) []string {
+		es, ok := st.(*ast.ExprStmt)
+		if !ok {
+			failAt(st, "quoteJSON: unrecognised statement %s", src(st))
+		}
+		x, mm, args, ok := methodCall(es.X)
+		if !ok || x != result || len(args) != 1 {
+			failAt(st, "quoteJSON: unrecognised statement %s", src(st))
+		}
+		arg := unparen(args[0])
+		switch mm {
+		case "WriteString":
+			s, ok := stringLit(arg)
 			if !ok {
 				failAt(st, "quoteJSON: unrecognised statement %s", src(st))
 			}
-			x, mm, args, ok := methodCall(es.X)
-			if !ok || x != result || len(args) != 1 {
-				failAt(st, "quoteJSON: unrecognised statement %s", src(st))
+			for _, r := range s {
+				elems = append(elems, leanChar(r))
 			}
-			arg := unparen(args[0])
-			switch mm {
-			case "WriteString":
-				s, ok := stringLit(arg)
-				if !ok {
+		case "WriteByte":
+			if isIdent(arg, char) {
+				elems = append(elems, "c")
+			} else if r, ok := charLit(arg); ok {
+				elems = append(elems, leanChar(r))
+			} else if ix, ok := arg.(*ast.IndexExpr); ok {
+				t, isT := ix.X.(*ast.Ident)
+				if !isT || tables[t.Name] == "" {
 					failAt(st, "quoteJSON: unrecognised statement %s", src(st))
 				}
-				for _, r := range s {
-					elems = append(elems, leanChar(r))
-				}
-			case "WriteByte":
-				if isIdent(arg, char) {
-					elems = append(elems, "c")
-				} else if r, ok := charLit(arg); ok {
-					elems = append(elems, leanChar(r))
-				} else if ix, ok := arg.(*ast.IndexExpr); ok {
-					t, isT := ix.X.(*ast.Ident)
-					if !isT || tables[t.Name] == "" {
-						failAt(st, "quoteJSON: unrecognised statement %s", src(st))
-					}
-					elems = append(elems, fmt.Sprintf("%s.getD (%s) '\\x00'", leanCharList(tables[t.Name]), byteExpr(ix.Index, char)))
-				} else {
-					failAt(st, "quoteJSON: unrecognised statement %s", src(st))
-				}
-			default:
+				elems = append(elems, fmt.Sprintf("%s.getD (%s) '\\x00'", leanCharList(tables[t.Name]), byteExpr(ix.Index, char)))
+			} else {
 				failAt(st, "quoteJSON: unrecognised statement %s", src(st))
 			}
-		}
-		return "[" + strings.Join(elems, ", ") + "]"
-	}
-	var tree lnode
-	var cases []*ast.CaseClause
-	var deflt *ast.CaseClause
-	for _, cc := range sw.Body.List {
-		c := cc.(*ast.CaseClause)
-		if c.List == nil {
-			deflt = c
-		} else {
-			cases = append(cases, c)
-		}
-	}
-	// the default branch must copy the byte: that (and the fact that every test below is false for
-	// a byte ≥ 0x80) is what makes the per-byte table a per-character table
-	if deflt == nil || len(deflt.Body) != 1 || src(deflt.Body[0]) != result+".WriteByte("+char+")" {
-		failAt(sw, "quoteJSON: the default case must be `%s.WriteByte(%s)`", result, char)
-	}
-	tree = lLeaf{"[c]"}
-	for i := len(cases) - 1; i >= 0; i-- {
-		c := cases[i]
-		if len(c.List) != 1 {
-			failAt(c, "quoteJSON: unrecognised case")
-		}
-		be, ok := unparen(c.List[0]).(*ast.BinaryExpr)
-		if !ok || !isIdent(be.X, char) {
-			failAt(c, "quoteJSON: unrecognised case %s", src(c.List[0]))
-		}
-		cond := ""
-		switch be.Op {
-		case token.EQL:
-			r, ok := charLit(be.Y)
-			if !ok || r >= 0x80 {
-				failAt(c, "quoteJSON: unrecognised case %s", src(c.List[0]))
-			}
-			cond = "c == " + leanChar(r)
-		case token.LSS:
-			lit, ok := unparen(be.Y).(*ast.BasicLit)
-			if !ok || lit.Kind != token.INT {
-				failAt(c, "quoteJSON: unrecognised case %s", src(c.List[0]))
-			}
-			v, err := strconv.ParseUint(lit.Value, 0, 8)
-			if err != nil || v > 0x80 {
-				failAt(c, "quoteJSON: unrecognised case %s", src(c.List[0]))
-			}
-			cond = fmt.Sprintf("c.toNat < 0x%x", v)
 		default:
-			failAt(c, "quoteJSON: unrecognised case %s", src(c.List[0]))
+			failAt(st, "quoteJSON: unrecognised statement %s", src(st))
 		}
-		tree = lIf{cond: cond, a: lLeaf{output(c.Body)}, b: tree}
+		return elems
 	}
+	// a test of the loop byte: its Lean text (over the character `c`) and its outcome for a byte ≥ 0x80 — a
+	// comparison with an ASCII constant has the same outcome for every byte of a multi-byte character, and that
+	// outcome is also the outcome of the Lean text for the character itself (whose code is ≥ 0x80)
+	type qcond struct {
+		lean string
+		high bool
+		atom bool
+	}
+	wrapq := func(c qcond) string {
+		if c.atom {
+			return c.lean
+		}
+		return "(" + c.lean + ")"
+	}
+	anyHigh := false // some test holds for a byte ≥ 0x80
+	var test func(e ast.Expr) qcond
+	test = func(e ast.Expr) (res qcond) {
+		defer func() { anyHigh = anyHigh || res.high }()
+		e = unparen(e)
+		switch x := e.(type) {
+		case *ast.UnaryExpr:
+			if x.Op == token.NOT {
+				c := test(x.X)
+				return qcond{lean: "!" + wrapq(c), high: !c.high}
+			}
+		case *ast.BinaryExpr:
+			switch x.Op {
+			case token.LAND:
+				a, b := test(x.X), test(x.Y)
+				return qcond{lean: wrapq(a) + " && " + wrapq(b), high: a.high && b.high}
+			case token.LOR:
+				a, b := test(x.X), test(x.Y)
+				return qcond{lean: wrapq(a) + " || " + wrapq(b), high: a.high || b.high}
+			}
+			op, cx, k := x.Op, x.X, x.Y
+			if !isIdent(unparen(cx), char) {
+				// constant on the left: mirror the comparison
+				cx, k = x.Y, x.X
+				switch op {
+				case token.LSS:
+					op = token.GTR
+				case token.LEQ:
+					op = token.GEQ
+				case token.GTR:
+					op = token.LSS
+				case token.GEQ:
+					op = token.LEQ
+				}
+			}
+			if !isIdent(unparen(cx), char) {
+				break
+			}
+			if r, ok := charLit(k); ok && r < 0x80 {
+				switch op {
+				case token.EQL:
+					return qcond{lean: "c == " + leanChar(r), high: false, atom: true}
+				case token.NEQ:
+					return qcond{lean: "c != " + leanChar(r), high: true, atom: true}
+				}
+			}
+			if lit, ok := unparen(k).(*ast.BasicLit); ok && lit.Kind == token.INT {
+				v, err := strconv.ParseUint(lit.Value, 0, 8)
+				if err != nil {
+					break
+				}
+				switch {
+				case op == token.LSS && v <= 0x80:
+					return qcond{lean: fmt.Sprintf("c.toNat < 0x%x", v), high: false, atom: true}
+				case op == token.LEQ && v < 0x80:
+					return qcond{lean: fmt.Sprintf("c.toNat ≤ 0x%x", v), high: false, atom: true}
+				case op == token.GEQ && v <= 0x80:
+					return qcond{lean: fmt.Sprintf("c.toNat ≥ 0x%x", v), high: true, atom: true}
+				case op == token.GTR && v < 0x80:
+					return qcond{lean: fmt.Sprintf("c.toNat > 0x%x", v), high: true, atom: true}
+				}
+			}
+		}
+		failAt(e, "quoteJSON: unrecognised test of the loop byte %s", src(e))
+		return qcond{}
+	}
+	// the body of the loop behind `char := str[i]`: a decision tree over the byte whose leaves are what one
+	// iteration writes; `high` is the leaf a byte ≥ 0x80 arrives at
+	type qkont func(elems []string) (lnode, string)
+	leaf := func(elems []string) (lnode, string) {
+		l := "[" + strings.Join(elems, ", ") + "]"
+		return lLeaf{l}, l
+	}
+	var exec func(list []ast.Stmt, elems []string, k qkont) (lnode, string)
+	chain := func(conds []qcond, bodies [][]ast.Stmt, deflt []ast.Stmt, hasDeflt bool, elems []string, k qkont) (lnode, string) {
+		var tree lnode
+		var high string
+		if hasDeflt {
+			tree, high = exec(deflt, elems, k)
+		} else {
+			tree, high = k(elems)
+		}
+		for i := len(conds) - 1; i >= 0; i-- {
+			a, ha := exec(bodies[i], elems, k)
+			tree = lIf{cond: conds[i].lean, a: a, b: tree}
+			if conds[i].high {
+				high = ha
+			}
+		}
+		return tree, high
+	}
+	exec = func(list []ast.Stmt, elems []string, k qkont) (lnode, string) {
+		if len(list) == 0 {
+			return k(elems)
+		}
+		elems = append([]string(nil), elems...)
+		rest := func(e []string) (lnode, string) { return exec(list[1:], e, k) }
+		switch st := list[0].(type) {
+		case *ast.ExprStmt:
+			return rest(write(st, elems))
+		case *ast.BlockStmt:
+			return exec(st.List, elems, rest)
+		case *ast.BranchStmt:
+			// `continue`: the iteration is over (the post statement is `i++`)
+			if st.Tok == token.CONTINUE && st.Label == nil {
+				return leaf(elems)
+			}
+		case *ast.IfStmt:
+			if st.Init != nil {
+				failAt(st, "quoteJSON: if with an init statement")
+			}
+			var els []ast.Stmt
+			switch e := st.Else.(type) {
+			case nil:
+			case *ast.BlockStmt:
+				els = e.List
+			default:
+				els = []ast.Stmt{e}
+			}
+			return chain([]qcond{test(st.Cond)}, [][]ast.Stmt{st.Body.List}, els, st.Else != nil, elems, rest)
+		case *ast.SwitchStmt:
+			if st.Init != nil || (st.Tag != nil && !isIdent(unparen(st.Tag), char)) {
+				failAt(st, "quoteJSON: expected a tagless switch or a switch over %s", char)
+			}
+			var conds []qcond
+			var bodies [][]ast.Stmt
+			var deflt *ast.CaseClause
+			for _, cc := range st.Body.List {
+				c := cc.(*ast.CaseClause)
+				if breaksOut(c.Body) {
+					failAt(c, "quoteJSON: break / fallthrough in a switch")
+				}
+				if c.List == nil {
+					if deflt != nil {
+						failAt(c, "quoteJSON: two default cases")
+					}
+					deflt = c
+					continue
+				}
+				var cond qcond
+				for i, x := range c.List {
+					var t qcond
+					if st.Tag == nil {
+						t = test(x)
+					} else {
+						// `switch char { case 'x': }` compares char == 'x'
+						r, ok := charLit(x)
+						if !ok || r >= 0x80 {
+							failAt(x, "quoteJSON: unrecognised case %s", src(x))
+						}
+						t = qcond{lean: "c == " + leanChar(r), high: false, atom: true}
+					}
+					if i == 0 {
+						cond = t
+					} else {
+						cond = qcond{lean: wrapq(cond) + " || " + wrapq(t), high: cond.high || t.high, atom: true}
+					}
+				}
+				if len(c.List) > 1 {
+					cond.atom = false
+				}
+				conds = append(conds, cond)
+				bodies = append(bodies, c.Body)
+			}
+			if deflt != nil {
+				return chain(conds, bodies, deflt.Body, true, elems, rest)
+			}
+			return chain(conds, bodies, nil, false, elems, rest)
+		}
+		failAt(list[0], "quoteJSON: unrecognised statement %s", src(list[0]))
+		return nil, ""
+	}
+	tree, high := exec(loop.Body.List[1:], nil, leaf)
+	// a byte ≥ 0x80 must be copied: that (and the fact that every test has the same outcome for each byte of a
+	// multi-byte character as for the character) is what makes the per-byte table a per-character table
+	if high != "[c]" {
+		failAt(loop, "quoteJSON: a byte ≥ 0x80 is not copied unchanged (it writes %s)", high)
+	}
+	sw, isSwitch := loop.Body.List[1].(*ast.SwitchStmt)
+	taglessOnly := isSwitch && len(loop.Body.List) == 2 && sw.Tag == nil && !anyHigh
 	var b strings.Builder
-	fmt.Fprintf(&b, "/-- the escape table of `quoteJSON` (%s): the tagless switch of its byte loop, for a byte\n< 0x80 read as a character; every test is false for a byte ≥ 0x80 and the default case copies\nthe byte, so a multi-byte character is copied unchanged -/\n", where(fd))
+	if taglessOnly {
+		fmt.Fprintf(&b, "/-- the escape table of `quoteJSON` (%s): the tagless switch of its byte loop, for a byte\n< 0x80 read as a character; every test is false for a byte ≥ 0x80 and the default case copies\nthe byte, so a multi-byte character is copied unchanged -/\n", where(fd))
+	} else {
+		fmt.Fprintf(&b, "/-- the escape table of `quoteJSON` (%s): the body of its byte loop, for a byte < 0x80 read as a\ncharacter; every test has the same outcome for each byte ≥ 0x80 as for the character they encode, and\non that path the byte is copied, so a multi-byte character is copied unchanged -/\n", where(fd))
+	}
 	b.WriteString("def escCharGen (c : Char) : Str :=\n  ")
 	emit(&b, tree, "  ")
 	b.WriteString("\n\n/-- `quoteJSON`: what is written before the loop, the table applied to every character, what is\nwritten behind the loop -/\n")
